@@ -59,11 +59,16 @@ func (e *Exec) containsTerm(s, sub []*Term) *Term {
 
 func (e *Exec) countByteTerm(s []*Term, c *Term) *Term {
 	tt := e.tt
-	r := tt.BV(64, 0)
-	for _, b := range s {
-		r = tt.Bin(OpAdd, r, tt.Ite(tt.Eq(b, c), tt.BV(64, 1), tt.BV(64, 0)))
+	// the count is at most len(s): add in the narrowest sufficient width
+	w := uint8(8)
+	if len(s) >= 255 {
+		w = 32
 	}
-	return r
+	r := tt.BV(w, 0)
+	for _, b := range s {
+		r = tt.Bin(OpAdd, r, tt.Ite(tt.Eq(b, c), tt.BV(w, 1), tt.BV(w, 0)))
+	}
+	return tt.ZExt(r, 64)
 }
 
 func init() {
